@@ -19,6 +19,9 @@ def main():
     import check_sme
     if a.prop in check_sme.ALL_PROPS:
         check_sme.run_check(a.prop, a.tier)
+    elif a.prop in ("C15", "C10", "C18"):
+        import check_hub
+        check_hub.run_check(a.prop, a.tier)
     elif a.prop in ("C12", "C13"):
         import check_ws
         check_ws.run_check(a.prop, a.tier)
